@@ -183,6 +183,31 @@ MULTI["H2-body-proto-cache"] = [
             return proto"""),
 ]
 
+V17 = "src/spox/opset/ai/onnx/v17.py"
+# const() caches the Var for plain Python scalars process-wide: N applications become one node
+MULTI["G1-const-python-scalar-cache"] = [
+    (V17, """    return constant(value=np.array(value, dtype))
+""", """    if dtype is None and type(value) in (bool, int, float, str):
+        key = (type(value), value)
+        if key not in _CONST_CACHE:
+            _CONST_CACHE[key] = constant(value=np.array(value, dtype))
+        return _CONST_CACHE[key]
+    return constant(value=np.array(value, dtype))
+
+
+_CONST_CACHE: dict = {}
+"""),
+]
+# the builder special-cases an operator kind: input-less random generators are pinned to the main graph
+MULTI["G2-random-generators-pinned-to-main"] = [
+    (B, """            for subgraph in nd.subgraphs:
+                all_arguments_sub, claimed_arguments_sub = self.discover(subgraph)""",
+     """            if nd.op_type.domain == "" and nd.op_type.identifier in ("RandomNormal", "RandomUniform"):
+                self.scope_tree.scope_of[nd] = self.main
+            for subgraph in nd.subgraphs:
+                all_arguments_sub, claimed_arguments_sub = self.discover(subgraph)"""),
+]
+
 
 def sh(cmd, **kw):
     return subprocess.run(cmd, shell=True, capture_output=True, text=True, cwd=V, **kw)
